@@ -325,6 +325,12 @@ def run(db: DB, rep: Report) -> None:
                       (hit[1] if hit else ""))
     rep.extra["try_statements_in_teaal"] = n_try
 
+    # ---- E7 / E8 ---------------------------------------------------------------
+    rep.rule("E7", "set-equality rules are tested symmetrically", 1)
+    _symmetric_rule(db, rep)
+    rep.rule("E8", "per-element flags tested by a guard are set within the element's own iteration", 2)
+    _stale_flag_rule(db, rep, anchors, guard_raises)
+
     # ---- E6 guards range over the whole collection --------------------------
     rep.rule("E6", "loops carrying a guard iterate the whole collection with no early exit "
              "ahead of the test", 5)
@@ -369,6 +375,93 @@ def run(db: DB, rep: Report) -> None:
                 p = getattr(p, "parent", None)
 
 
+def _stale_flag_rule(db: DB, rep: Report, anchors, guard_raises) -> None:
+    """E8: a name that varies per iteration and is tested by a guard inside a
+    loop is assigned within that iteration before the guard on every path."""
+    for q, f in anchors.items():
+        for r in guard_raises.get(q, []):
+            gs = paths.guards(r, stop=f.node)
+            if not gs:
+                continue
+            test_node = gs[-1][0]
+            # innermost..outermost loops around the guard's if statement
+            if_stmt = test_node.parent
+            p = if_stmt.parent
+            loops = []
+            while p is not None and p is not f.node:
+                if isinstance(p, (ast.For, ast.While)):
+                    loops.append(p)
+                p = p.parent
+            for lp in loops:
+                targets = {n.id for n in ast.walk(lp.target) if isinstance(n, ast.Name)} \
+                    if isinstance(lp, ast.For) else set()
+                assigned_in_loop = {n.id for s_ in lp.body for n in ast.walk(s_)
+                                    if isinstance(n, ast.Name) and isinstance(n.ctx, ast.Store)}
+                comp_bound = {x.id for c in ast.walk(test_node) if isinstance(c, ast.comprehension)
+                              for x in ast.walk(c.target) if isinstance(x, ast.Name)}
+                for nm in sorted((paths.load_names(test_node) & assigned_in_loop) - targets - comp_bound):
+                    def is_def(n, nm=nm):
+                        if isinstance(n, (ast.Assign, ast.AnnAssign, ast.AugAssign)):
+                            ts = n.targets if isinstance(n, ast.Assign) else [n.target]
+                            return any(isinstance(t, ast.Name) and t.id == nm for t in ts)
+                        if isinstance(n, ast.For):
+                            return any(isinstance(t, ast.Name) and t.id == nm for t in ast.walk(n.target))
+                        return False
+                    bad = paths.must_precede(lp.body, is_def, lambda n: n is test_node)
+                    rep.check("E8", not bad, db.loc(if_stmt), f.short, "fresh-flag:%s@%s" % (nm, f.short),
+                              "'%s' tested by the guard at %s is set within the same iteration of the loop at %s"
+                              % (nm, db.loc(if_stmt), db.loc(lp)),
+                              "the guard at %s tests '%s', which changes inside the loop at %s but is not "
+                              "assigned on every path of the current iteration before the test: a value left "
+                              "over from an earlier element decides whether this element is rejected" %
+                              (db.loc(if_stmt), nm, db.loc(lp)))
+
+
+def _symmetric_rule(db: DB, rep: Report) -> None:
+    """E7: 'all terms range over the same rank set' is tested symmetrically."""
+    f = db.func("teaal.ir.equation.Equation.__build_einsum_ranks")
+    raises = [n for n in walk_no_nested(f.node) if isinstance(n, ast.Raise) and _is_value_error(n)]
+    for r in raises:
+        gs = paths.guards(r, stop=f.node)
+        if not gs:
+            continue
+        test = gs[-1][0]
+        names = sorted(x for x in paths.load_names(test)
+                       if any(True for st, v in paths.defs_of(f.node, x)
+                              if v is not None and "__get_term_ranks" in paths.called_names([v])))
+        if len(names) != 2:
+            raise AnalysisError("the rank-set comparison of __build_einsum_ranks does not compare two term "
+                                "rank lists (%s); cannot decide rule E7" % names)
+        a, b = names
+
+        class Swap(ast.NodeTransformer):
+            def visit_Name(self, node):
+                if node.id == a:
+                    return ast.Name(id=b, ctx=node.ctx)
+                if node.id == b:
+                    return ast.Name(id=a, ctx=node.ctx)
+                return node
+        def is_sym(t: ast.AST) -> bool:
+            sw = Swap().visit(paths.clone(t))
+            if norm(sw) == norm(t):
+                return True
+            if isinstance(t, ast.Compare) and len(t.ops) == 1 and isinstance(t.ops[0], (ast.Eq, ast.NotEq)):
+                return norm(sw.left) == norm(t.comparators[0]) and norm(sw.comparators[0]) == norm(t.left)
+            if isinstance(t, ast.BoolOp):
+                if sorted(norm(v) for v in sw.values) == sorted(norm(v) for v in t.values):
+                    return True
+                return all(is_sym(v) for v in t.values)
+            if isinstance(t, ast.UnaryOp):
+                return is_sym(t.operand)
+            return False
+        sym = is_sym(test)
+        rep.check("E7", sym, db.loc(test), f.short, "symmetric:" + norm(test)[:80],
+                  "rank-set comparison %s is symmetric in the two terms" % norm(test)[:60],
+                  "the test %s that rejects terms ranging over different rank sets is not symmetric in the two "
+                  "terms: a term with extra (or missing) ranks is accepted depending on the order of the terms"
+                  % norm(test)[:80])
+
+
 def mutants(db: DB):
     from sa.selftest import M
     pt = "teaal/ir/partitioning.py"
@@ -406,6 +499,14 @@ def mutants(db: DB):
         M("Equation.__init__ skips active-tensor check", eq, "        self.__build_active_tensors()\n        self.__build_computation()",
           "        if len(tensors) > 1:\n            self.__build_active_tensors()\n        self.__build_computation()",
           "E2"),
+        M("rank-set check in one direction only", eq,
+          "            if Counter(check_ranks) != Counter(term_ranks):",
+          "            if any(rank not in check_ranks for rank in term_ranks):", "E7"),
+        M("configured flag initialised once", "teaal/parse/bindings.py",
+          "        for einsum in yaml[\"bindings\"]:\n            self.components[einsum] = {}\n\n            configured = False\n",
+          "        configured = False\n        for einsum in yaml[\"bindings\"]:\n            self.components[einsum] = {}\n\n", "E8"),
+        M("benign: symmetric set comparison", eq, "            if Counter(check_ranks) != Counter(term_ranks):",
+          "            if set(check_ranks) != set(term_ranks) or len(check_ranks) != len(term_ranks):", (), benign=True),
         M("swallow ValueError around Partitioning", "teaal/ir/program.py",
           "            self.partitioning = Partitioning({}, ranks, self.coord_math)",
           "            try:\n                self.partitioning = Partitioning({}, ranks, self.coord_math)\n"
